@@ -124,6 +124,11 @@ func c02StructCase(res *core.Result, rng *rand.Rand, t reflect.Type, v reflect.V
 			sf := t.Field(f)
 			if sf.PkgPath == "" && !structish(sf.Type) && rng.Intn(2) == 0 {
 				r := gen.RuleList(rng, sf.Type, 3, fmt.Sprintf("o%d", f), gen.MsgUnique, false)
+				if rng.Intn(3) == 0 {
+					if pr := gen.PerturbRules(rng, sf.Tag.Get("valid"), sf.Type, fmt.Sprintf("o%d", f)); pr != "" {
+						r = pr
+					}
+				}
 				rm[sf.Name] = r
 				env.Unscoped[sf.Name] = r
 			}
